@@ -157,6 +157,13 @@ def cases(ctx):
             k += 1
             if ctx.mine(k):
                 yield {"kind": "direct", "angle": a, "tol": tol}
+    # the same angle asked for several times in one process, at tolerances that come close to each other, looser first / stricter
+    # first: every answer meets the tolerance it was asked for
+    for i, a in enumerate(_angles(ctx, ctx.n(400, 40000) * ctx.nshards)):
+        if ctx.mine(i):
+            t = ctx.rng.choice([1e-2, 1e-3, 1e-4, 1e-4, 1e-5, 1e-6])
+            seq = [t * 30, t * 1.9, t * 1.4, t, t * 1.1, t / 3] if i % 2 == 0 else [t / 3, t, t * 1.9, t * 1.01, t * 30, t]
+            yield {"kind": "direct-sequence", "angle": a, "tols": seq}
     # angles handed over as numpy float16 / float32 scalars (results of array arithmetic)
     j = 0
     for a in [3.0, -26.2, 0.7, 6283.0, 32.606396, -1.5, 100.0, 0.001] + [ctx.rng.uniform(-50, 50) for _ in range(10 if ctx.quick else 2000)]:
@@ -181,6 +188,10 @@ def cases(ctx):
             j += 1
             if ctx.mine(j) and (not ctx.quick or j % 2 == 0 or a == 0.0):
                 yield {"kind": "sdk", "angle": a, "axis": "XYZ"[j % 3], "nd": nd}
+    # a float rotation that is refused (not a finite number) between two rotations by the same valid angle
+    for i, a in enumerate([0.7, -1.234, 3.0, 5.5] + [ctx.rng.uniform(-7, 7) for _ in range(4 if ctx.quick else 200)]):
+        if ctx.mine(i):
+            yield {"kind": "sdk", "angle": a, "axis": "XYZ"[i % 3], "refused_between": ["inf", "nan", "-inf", "text"][i % 4]}
     # the same float angle used on a FutureQubit (EPR context) and afterwards on ordinary qubits
     for i, a in enumerate([0.7, 1.234, -0.4, 2.0, 5.5] + [ctx.rng.uniform(0.05, 6.2) for _ in range(4 if ctx.quick else 60)]):
         if ctx.mine(i):
@@ -199,6 +210,18 @@ def run_case(ctx, case):
     _state["ctx"] = ctx
     _state["viol"] = None
     a = case["angle"]
+    if case["kind"] == "direct-sequence":
+        for tol in case["tols"]:
+            ctx.count("repeated_angle_calls")
+            try:
+                sp.get_angle_spec_from_float(a, tol)
+            except Exception as e:
+                ctx.fail(case, f"angle {a!r} tol {tol!r} (asked after {case['tols'][:case['tols'].index(tol)]}): raised {type(e).__name__}: {e}")
+                break
+            if _state["viol"]:
+                ctx.fail(case, f"asked at tolerances {case['tols']} in this order: " + _state["viol"][0], key=_state["viol"][1])
+                break
+        return ctx.case(case, True)
     if case["kind"] == "direct":
         tol = case["tol"]
         arg = a
@@ -241,7 +264,16 @@ def run_case(ctx, case):
             getattr(q, "rot_" + case["axis"])(n=case["nd"][0], d=case["nd"][1], angle=arg)
         else:
             getattr(q, "rot_" + case["axis"])(angle=arg)
+        if case.get("refused_between"):
+            bad = {"inf": float("inf"), "-inf": float("-inf"), "nan": float("nan"), "text": "a quarter turn"}[case["refused_between"]]
+            try:
+                getattr(q, "rot_" + case["axis"])(angle=bad)
+                _state["accepted_bad"] = True
+            except Exception:
+                ctx.count("non_finite_angles_refused")
+            getattr(q, "rot_" + case["axis"])(angle=arg)       # the application carries on with the valid angle
 
+    _state["accepted_bad"] = False
     try:
         subs = emitted_subroutines(prog)
     except Exception as e:
@@ -257,6 +289,14 @@ def run_case(ctx, case):
                 ctx.count("sdk_route_rotations")
             elif ins.mnemonic.startswith("rot_"):
                 ctx.fail(case, f"rotation about the wrong axis emitted: {ins}")
+    if case.get("refused_between") and not _state["accepted_bad"]:
+        # two rotations by the same angle were emitted: the same decomposition twice
+        half = len(nds) // 2
+        if len(nds) % 2 or nds[:half] != nds[half:]:
+            ctx.fail(case, f"SDK route: rot_{case['axis']}(angle={a!r}), a refused rot_{case['axis']}(angle={case['refused_between']}), "
+                           f"rot_{case['axis']}(angle={a!r}) again: the emitted rotation steps are {nds} - not the same steps twice")
+            return ctx.case(case, True)
+        nds = nds[:half]
     ok, msg, key = judge(a, tol, nds)
     if not ok:
         ctx.fail(case, "SDK route: " + msg, key=key)
